@@ -173,4 +173,16 @@ CLAIMS = {
                 'tabled with reasons; associateChars\' range arithmetic itself is value-level.',
         'technique': 'argument-provenance (closed-form) rule over resolved call sites + CFG path rules',
     },
+    'C14': {
+        'text': 'That the decoder produces exactly the bytes of a reference LZ4 decoder, and that compressed fonts shape identically, are '
+                'run-time facts and NOT decided.  Decided, for every byte string presented as a compressed table: each of the four copy calls '
+                'is dominated by the bound its copy routine needs (aligned length <= remaining output for the word-wise copy, match source '
+                'inside the produced output, LASTLITERALS reserve), the entry and wrap tests dominate decoding, the remaining-output counter '
+                'is decremented after every copy before the next guard, the sequence reader tests the source cursor before every header byte '
+                'and requires MINCODA, the format constants are coherent; the wrapper tests the header size first, allocates exactly the '
+                'announced 27-bit size, compares the decoded length and the version word before installing the buffer, never installs a '
+                'failed decode, and adds no size rejection stronger than the decoder\'s own out_size > in_size contract.',
+        'note': 'Trusted: clang 14 CFG, tools/grfacts, rules/c14.py, rules/dom.py.  Buffer ownership / release is C16 TABLETS.',
+        'technique': 'dominance-with-strength rules over CFG facts (guards of every copy and read) + path rule on the output budget',
+    },
 }
